@@ -352,6 +352,55 @@ def decrypting_consumer_failures(offsets):
     return bad
 
 
+class ResumeProducing(Spec):
+    """Segmentation.resumeProducing / pauseProducing: resuming makes the read hungry and schedules the *guarded* step --
+    whatever it schedules starts a segment request only if the read is alive, hungry and has no request in flight
+    ("cancelling or pausing one read does not disturb the others": a second request in flight makes the read fail)"""
+    file = SG
+    qualname = "Segmentation.resumeProducing"
+    cross_check = 0
+    raises = ()
+    canary_case = {"alive": True, "active": None, "paused_again": False}
+
+    def inputs(self):
+        return {"alive": ChoiceK([False, True]), "active": ChoiceK([None, 0, 3]), "paused_again": ChoiceK([False, True])}
+
+    def all_cases(self):
+        return [{"alive": al, "active": ac, "paused_again": pa} for al in (False, True) for ac in (None, 0, 3) for pa in (False, True)]
+
+    def config(self):
+        me = self
+        o = dict(LOG)
+        o["eventual.eventually"] = lambda I, a, kw: me._scheduled.append((a[0], list(a[1:])))
+        o["foolscap.eventual.eventually"] = o["eventual.eventually"]
+        o["segmentation.now"] = lambda I, a, kw: 0
+        return {"overrides": o}
+
+    def run(self, I, a):
+        self._scheduled, self._fetches = [], []
+        ev = stub("read_ev", update=noop)
+        sg = SObj(self.module().Segmentation, {"_alive": a["alive"], "_hungry": False, "_active_segnum": a["active"], "_start_pause": None, "_read_ev": ev, "_lp": None})
+        sg.fields["_fetch_next"] = stub("x", f=lambda I_, a_, k_: self._fetches.append(1)).fields["f"]
+        I.call_value(self.target(I), [sg], {})
+        hungry_after = sg.fields["_hungry"]
+        if a["paused_again"]:
+            I.call_value(I.get_attr(sg, "pauseProducing"), [], {})
+        for fn, args in list(self._scheduled):
+            I.call_value(fn, args, {})
+        out = Outcome("return", sg)
+        out.post = {"hungry_after": hungry_after}
+        return out
+
+    def ensures(self, I, a, out):
+        may = a["alive"] and a["active"] is None and not a["paused_again"]
+        return [("resuming-makes-the-read-hungry", z3.BoolVal(out.post["hungry_after"] is True)),
+                ("one-step-is-scheduled-for-a-later-turn-none-runs-now", z3.BoolVal(len(self._scheduled) == 1)),
+                ("the-scheduled-step-requests-a-segment-only-if-alive-hungry-and-nothing-is-in-flight", z3.BoolVal(len(self._fetches) == (1 if may else 0)))]
+
+    def canary(self, I, a, out):
+        return [("canary", z3.BoolVal(len(self._fetches) == 0))]
+
+
 def extra_checks(rep, tier):
     from contracts import immutable_grid
     immutable_grid.grid_check(rep, tier, "C04")
@@ -378,4 +427,4 @@ def aes_check(rep, tier):
 
 
 def contracts(tier):
-    return [NodeRead(), GotSegment(), FetchNext(), ExtractRequests(), CancelRequest(), LiteralRead()]
+    return [NodeRead(), GotSegment(), FetchNext(), ExtractRequests(), CancelRequest(), LiteralRead(), ResumeProducing()]
